@@ -309,7 +309,7 @@ def previous_blocks():
 
 def translate(repo):
     prev = previous_blocks()
-    out = [HEADER + "namespace DV.C14.Gen"]
+    out = [HEADER + "set_option linter.unusedVariables false\nnamespace DV.C14.Gen"]
     for (name, path, fn, doc) in FUNCS:
         try:
             src = strip_comments(open(os.path.join(repo, path)).read())
